@@ -67,6 +67,16 @@ pub fn charge_clock(d: Duration) {
     let _ = Future::poll(fut.as_mut(), &mut cx);
 }
 
+/// Lets everything a freshly bound endpoint started come to rest before the harness goes on.
+/// netwatch reads /proc/net/route through tokio's blocking pool at bind; the instant that real
+/// thread completes is outside the simulator's control. While a blocking task is in flight tokio
+/// does not auto-advance the paused clock, so this sleep can only finish once it is done and all
+/// other tasks are idle: the completion then never races runnable tasks of other endpoints.
+pub async fn settle_after_bind() {
+    tokio::time::sleep(Duration::from_millis(5)).await;
+    yields(4).await;
+}
+
 /// Yields to the scheduler `n` times (lets every other ready task run `n` rounds).
 pub async fn yields(n: u32) {
     for _ in 0..n {
